@@ -107,8 +107,9 @@ class World:
                                          "op_ref": r.randrange(2) if r.random() < 0.4 else None,
                                          "bessel": r.random() < 0.3},
                  "client": r.randrange(cfg["clients"]), "rs": r.getrandbits(32)}
-            if cfg["faults"] != "none" and r.random() < 0.25:
+            if cfg["faults"] != "none" and r.random() < 0.3:
                 s["fault"] = r.choice([{"kind": "peer", "at": r.randrange(0, 2), "view": r.choice(["run", "wf", "exact", "dist", "exact"])},
+                                       {"kind": "peer", "at": 0, "view": r.choice(["exact", "wf", "dist"])},
                                        {"kind": "alloc", "at": r.randrange(0, 40)}])
             steps.append(s)
         if r.random() < 0.3:
@@ -330,13 +331,22 @@ class World:
             for k, v in ed.distribution_dict.items():
                 ctx.check(len(k) == n and abs(v - p[refmodel.index_of(k)]) <= 1e-9, "refine", "exact-distribution-order",
                           f"{what}: exact distribution of the bound circuit gives {k} -> {v!r}, the parametric state vector at the point gives {p[refmodel.index_of(k)]!r}")
+        # (as in the numeric views: floating-point dust counts as non-zero - an adversarial draw may legally pick it - so
+        # sampled outcomes are judged against the code's own probability vector of the bound circuit, which in turn must
+        # agree with the parametric state vector at the point)
+        okw, bwf2 = call(sim.get_wavefunction, bc)
+        ctx.check(okw, "unexpected-reject", "get_wavefunction", lambda: f"{what} (bound): {type(bwf2).__name__}: {bwf2}")
+        with judge(ctx):
+            pc = np.asarray(bwf2.get_probabilities(), dtype=float).reshape(-1)
+            ctx.check(len(pc) == N and float(np.max(np.abs(pc - p))) <= 1e-9, "refine", "state-vector-order:parametric-vs-bound",
+                      f"{what}: state of the circuit bound beforehand {pc} vs the parametric state vector at the point {p}")
         for ns in (a["small"], a["big"]):
             okr, meas = call(sim.run_and_measure, bc, ns)
             ctx.check(okr, "unexpected-reject", "run", lambda: f"{what} (bound): run_and_measure({ns}) raised {type(meas).__name__}: {meas}")
             with judge(ctx):
                 for t in meas.bitstrings:
-                    ctx.check(len(t) == n and p[refmodel.index_of(t)] > 1e-12, "refine", "zero-probability-outcome",
-                              f"{what}: bound circuit sampled {tuple(t)} whose probability under the parametric state vector is {p[refmodel.index_of(t)]!r}")
+                    ctx.check(len(t) == n and pc[refmodel.index_of(t)] > 0.0, "refine", "zero-probability-outcome",
+                              f"{what}: bound circuit sampled {tuple(t)} whose exact probability is {pc[refmodel.index_of(t)]!r}")
         ctx.nontrivial = True
         ctx.log("symview", "ok", n=n, n_ops=len(circ.operations))
 
